@@ -297,12 +297,16 @@ func Remove(def Definition, repo repository.ClockedRepo, id entity.Id) error {
 // RemoveAll delete all Entity matching the Definition.
 // RemoveAll is idempotent.
 func RemoveAll(def Definition, repo repository.ClockedRepo) error {
-	localIds, err := ListLocalIds(def, repo)
+	// Every reference of the namespace goes, whatever its name. Going through Remove(id) would stop at
+	// the first reference whose name is not a valid id (a copy kept by the user, an id of the old
+	// format) and leave the removal half done, for ever. The remote-tracking references of the local
+	// entities are removed below, with all the others.
+	localRefs, err := repo.ListRefs(fmt.Sprintf("refs/%s/", def.Namespace))
 	if err != nil {
 		return err
 	}
-	for _, id := range localIds {
-		err = Remove(def, repo, id)
+	for _, ref := range localRefs {
+		err = repo.RemoveRef(ref)
 		if err != nil {
 			return err
 		}
